@@ -3,6 +3,8 @@ package sim
 // C19 — repository credentials are sent only to the repository's own host.
 
 import (
+	"bytes"
+	"encoding/json"
 	"fmt"
 	"io"
 	"net/url"
@@ -21,6 +23,7 @@ import (
 	"helm.sh/helm/v4/pkg/cli"
 	"helm.sh/helm/v4/pkg/downloader"
 	"helm.sh/helm/v4/pkg/getter"
+	"helm.sh/helm/v4/pkg/provenance"
 	"helm.sh/helm/v4/pkg/repo"
 )
 
@@ -265,6 +268,28 @@ func ExecuteC19(t *testing.T, plan *Plan) *RunResult {
 				m.Verify = downloader.VerifyIfPossible
 			}
 			opErr = m.Update()
+		case "manager-build":
+			// helm dependency build --skip-refresh with a Chart.lock that pins a version the (stale) cached index does not
+			// know while the repository's live index does: the cache, not the live index, says whose archive a URL is
+			cfg, cache := writeRepoFiles(dir, n, spec, false)
+			cdir := filepath.Join(dir, "parent")
+			os.MkdirAll(cdir, 0o755)
+			var deps, lockDeps strings.Builder
+			var req, locked []*chart.Dependency
+			for _, r := range spec.Repos {
+				os.WriteFile(filepath.Join(cache, r.Name+"-index.yaml"), bytes.ReplaceAll(n.Artefacts["index:"+r.Name], []byte("version: 1.0.0"), []byte("version: 0.9.0")), 0o644)
+				ru := stripUserinfo(r.URL)
+				fmt.Fprintf(&deps, "- name: %s\n  version: 1.0.0\n  repository: %q\n", r.Chart, ru)
+				fmt.Fprintf(&lockDeps, "- name: %s\n  repository: %q\n  version: 1.0.0\n", r.Chart, ru)
+				req = append(req, &chart.Dependency{Name: r.Chart, Version: "1.0.0", Repository: ru})
+				locked = append(locked, &chart.Dependency{Name: r.Chart, Version: "1.0.0", Repository: ru})
+			}
+			data, _ := json.Marshal([2][]*chart.Dependency{req, locked})
+			sum, _ := provenance.Digest(bytes.NewBuffer(data))
+			os.WriteFile(filepath.Join(cdir, "Chart.yaml"), []byte("apiVersion: v2\nname: parent\nversion: 0.1.0\ndependencies:\n"+deps.String()), 0o644)
+			os.WriteFile(filepath.Join(cdir, "Chart.lock"), []byte("dependencies:\n"+lockDeps.String()+"digest: sha256:"+sum+"\ngenerated: \"2020-01-02T03:04:05Z\"\n"), 0o644)
+			m := &downloader.Manager{Out: io.Discard, ChartPath: cdir, Getters: provs, RepositoryConfig: cfg, RepositoryCache: cache, Verify: downloader.VerifyNever, SkipUpdate: true}
+			opErr = m.Build()
 		default:
 			panic("unknown path " + spec.Path)
 		}
@@ -357,9 +382,9 @@ var c19Hosts = []string{"repo1.example.com", "charts.corp.example", "r.test"}
 func genC19(seed, index uint64, tier string) *Plan {
 	g := NewGen(seed, index, 19)
 	p := &Plan{Check: "C19", Seed: seed, Index: index, Backend: "none"}
-	spec := &NetSpec{Path: g.Pick("getter", "dl-ref", "dl-url", "locate", "manager", "pull")}
+	spec := &NetSpec{Path: g.Pick("getter", "dl-ref", "dl-url", "locate", "manager", "pull", "manager-build")}
 	nrepos := 1
-	if spec.Path == "manager" {
+	if spec.Path == "manager" || spec.Path == "manager-build" {
 		nrepos = 1 + g.N(3)
 	}
 	for i := 0; i < nrepos; i++ {
